@@ -73,14 +73,33 @@ class H(common.Harness):
         eng = self.eng
         toks = []
         self.sym = []
+        exts = []
+        harness = self
+
+        class AbsExtractor:
+            """an extractor that finds exactly one candidate; the token is built from the text it is GIVEN
+            (so a tokenizer that hands a transformed copy of the text to its extractors is noticed)."""
+
+            def __init__(self_, kind, s, e):
+                self_.kind, self_.s, self_.e = kind, s, e
+
+            def get_matches(self_, text):
+                return [text]
+
+            def get_token(self_, m, offset=0):
+                data = m.getitem(slice(SInt(self_.s), SInt(self_.e))) if isinstance(m, TStr) else m
+                t = build_token(self_.kind, data, SInt(self_.s), SInt(self_.e))
+                toks.append(t)
+                return t
+
         for i in range(self.K):
             s, e = z3.Int(f"s{i}"), z3.Int(f"e{i}")
             eng.add(0 <= s, s < e, e <= self.n)
             k = eng.choose([z3.Int(f"k{i}") == j for j in range(len(self.kinds))])
-            toks.append(build_token(self.kinds[k], TStr.sub(s, e, self.n), SInt(s), SInt(e)))
+            exts.append(AbsExtractor(self.kinds[k], s, e))
             self.sym.append((self.kinds[k], s, e))
-        tk = self.T.Tokenizer(extractors=[])
-        self.interp.stubs[self.T.Tokenizer.extract_tokens] = lambda slf, text: iter(toks)
+        # the real Tokenizer.extract_tokens / get_extractors run over the abstract extractors
+        tk = self.T.Tokenizer(extractors=exts)
         all_tokens, cts = self.interp.call(self.T.Tokenizer.tokenize, (tk, self.text), {})
         return toks, all_tokens, cts
 
@@ -112,9 +131,10 @@ class H(common.Harness):
                 ok_identity = False
                 continue
             _, s, e = self.sym[j[0]]
-            sg = t.data.single() if isinstance(t.data, TStr) else None
+            sg = t.data.single() if isinstance(t.data, TStr) and not t.data.derived else None
             if sg is None:
-                ok_identity = False
+                # the token's text is not a slice of the document's own text
+                own.append(z3.BoolVal(False))
                 continue
             own.append(z3.And(lift_int(t.start) == s, lift_int(t.end) == e, sg[0] == s, sg[1] == e))
         fs.append(self.check("special_is_input_token", z3.BoolVal(ok_identity), self.witness))
@@ -187,8 +207,50 @@ class HAppend(common.Harness):
         ]
 
 
+class HDoc(common.Harness):
+    """Document.tokenize hands the document's own plain text to the tokenizer and stores what it returns."""
+
+    def __init__(self, params):
+        super().__init__(params)
+        import eyecite.models as M
+
+        self.M = M
+
+    def run(self):
+        n = z3.Int("n")
+        self.eng.add(n >= 0)
+        text = TStr.base(n)
+        seen = []
+
+        class Tk:
+            def tokenize(self_, t):
+                seen.append(t)
+                return (["words"], ["tokens"])
+
+        doc = self.interp.instantiate(self.M.Document, (), {"plain_text": text})
+        self.interp.call(self.M.Document.tokenize, (doc,), {"tokenizer": Tk()})
+        return text, seen, doc
+
+    def witness(self, m):
+        return {}
+
+    def describe(self, kind, out):
+        return {"outcome": kind}
+
+    def judge(self, kind, out):
+        if kind == "exc":
+            return [self.check("document:no_exception:" + type(out).__name__, False, self.witness)]
+        text, seen, doc = out
+        ok = len(seen) == 1 and isinstance(seen[0], TStr) and not seen[0].derived and seen[0].key() == text.key() and doc.words == ["words"] and doc.citation_tokens == ["tokens"] and isinstance(doc.plain_text, TStr) and doc.plain_text.key() == text.key() and not doc.plain_text.derived
+        return [self.check("document:tokenizer_is_given_the_documents_own_text", z3.BoolVal(bool(ok)), self.witness)]
+
+
 def make(params):
-    return HAppend(params) if params.get("lemma") == "append_text" else H(params)
+    if params.get("lemma") == "append_text":
+        return HAppend(params)
+    if params.get("lemma") == "document":
+        return HDoc(params)
+    return H(params)
 
 
 def group1_side_condition():
@@ -366,6 +428,8 @@ def selftest(rep):
     return n
 
 
+PROBES = ["See Roe v. Wade, 410 U.S.\u00a0113 (1973)", "1\u00a0U.S. 1", "Id.\u00a0at 5; Foo, supra,\u00a0at 6", "See 1\u202fU.S.\u202f1.", "SEE ID. AT 5", "1 U.S.\t1 and 2\tF.2d 3"]
+
 REGRESSION = [
     # fixed: d425be7
     "Shapiro v. Thompson, 394 U. S. 618",
@@ -380,7 +444,7 @@ def check(rep):
     K = 2 if rep.tier == "quick" else 3
     rep.bounds.append(f"K = {K} candidate tokens returned by extract_tokens (offsets, kinds, generator order arbitrary; text length unbounded)")
     rep.outside.append(f"more than {K} candidate tokens interacting; token kinds other than {KINDS}; what the extractors match (C13/C14)")
-    rep.stubs.append("Tokenizer.extract_tokens: arbitrary tokens with 0 <= start < end <= len(text), data = text[start:end]")
+    rep.stubs.append("extractors: K abstract extractors each reporting one candidate with 0 <= start < end <= len(text) whose data is the slice [start:end] of the text the tokenizer hands to it (Tokenizer.extract_tokens and get_extractors are interpreted)")
     rep.stubs.append("Tokenizer.append_text: summary 'appends pieces whose concatenation is the argument' (proved on the real source by the append_text lemma below)")
     n_self = selftest(rep)
     rep.sections["interpreter_selftest"] = {"strings_agreeing_with_cpython": n_self}
@@ -415,8 +479,28 @@ def check(rep):
             seen.add(key)
             rep.violation(f"tokenize on text {text!r} with candidate tokens {w['tokens']}: clauses violated on real code {res} (symbolic clause {f['clause']})", {"kind": "tokens", "witness": w, "text": text})
         else:
-            rep.spurious += 1
-            rep.inconc(f"model for clause {f['clause']} did not reproduce on the real code: {w}")
+            # the token text was taken from a transformed copy of the input: distinct plain characters cannot
+            # show that; probe with characters that "normalising" copies change
+            hit = None
+            if f["clause"] == "offsets_index_own_text":
+                for t in PROBES:
+                    for name, cls in (("Tokenizer", T.Tokenizer), ("AhocorasickTokenizer", T.AhocorasickTokenizer)):
+                        try:
+                            bad = concrete_check(t, *cls().tokenize(t))
+                        except Exception as ex:
+                            bad = ["no_exception:" + type(ex).__name__]
+                        if bad:
+                            hit = (name, t, bad)
+                            break
+                    if hit:
+                        break
+            if hit:
+                if ("probe", hit[0]) not in seen:
+                    seen.add(("probe", hit[0]))
+                    rep.violation(f"{hit[0]}().tokenize({hit[1]!r}) violates {hit[2]} (symbolic clause {f['clause']}: a token's text is not a slice of the input)", {"kind": "text", "text": hit[1], "tokenizer": hit[0]})
+            else:
+                rep.spurious += 1
+                rep.inconc(f"model for clause {f['clause']} did not reproduce on the real code: {w}")
     n_ob = sum(v for k, v in agg["verdicts"].items())
     n_ok = sum(v for k, v in agg["verdicts"].items() if k.endswith(":valid"))
     rep.oblige(n_ob - n_ok, ok=False)
@@ -449,6 +533,27 @@ def check(rep):
         else:
             rep.spurious += 1
             rep.inconc(f"append_text lemma: model did not reproduce: {f['witness']}")
+    agg_d = common.explore_split("vf.harness.c12", {"lemma": "document"}, depth=2, procs=1)
+    rep.merge_explore("document_tokenize", agg_d)
+    n_ob = sum(agg_d["verdicts"].values())
+    n_ok = sum(v for k, v in agg_d["verdicts"].items() if k.endswith(":valid"))
+    rep.oblige(n_ok)
+    rep.oblige(n_ob - n_ok, ok=False)
+    if any(f["verdict"] == "cex" for f in agg_d["findings"]):
+        # replay: texts with characters a "normalising" copy would change, through get_citations
+        from eyecite import get_citations
+
+        hit = None
+        for t in ("Roe v. Wade, 410\u00a0U.S.\u00a0113, 120 (1973)", "See 1\u202fU.S.\u202f1.", "Id.,\u00a0at\u00a05", "FOO V. BAR, 1 U.S. 1", "see 1 u.s. 1"):
+            rep.replays += 1
+            for cit in get_citations(t):
+                s0, s1 = cit.span()
+                if not t[s0:s1].startswith(cit.matched_text()):
+                    hit = (t, cit.matched_text(), t[s0:s1])
+        if hit:
+            rep.violation(f"get_citations({hit[0]!r}): a token's text {hit[1]!r} is not the text at its offsets {hit[2]!r} (the tokenizer was not given the document's own text)", {"kind": "text", "text": hit[0], "tokenizer": "AhocorasickTokenizer"})
+        else:
+            rep.inconc("Document.tokenize does not hand its own plain text to the tokenizer, but the probe texts show no offset/text mismatch")
     n_ext, g1_bad = group1_side_condition()
     rep.sections["group1_side_condition"] = {"extractors": n_ext, "offenders": g1_bad[:3]}
     rep.oblige(n_ext - len(g1_bad))
